@@ -134,6 +134,12 @@ def run(ctx):
                 for pl in (b"IA==", b"DQo=", b"CSAK", b"Cgo=", b"ICBhICA=", b"DQphDQo="):
                     tv.append(("binary-ws:%s:%s=%s" % (rel, m.group(1).decode(), pl.decode()), x[:m.start(2)] + pl + x[m.end(2):]))
     srcs += tv
+    # explicit carriage returns in vFormat / clear-text <Data> (D39, repaired in /repo: "&#13;&#10;" came back as CR CR LF)
+    for ty in ("text/x-vcard", "text/x-vcalendar", "text/clear"):
+        for body in ("BEGIN:VCARD&#13;&#10;N:a&#13;&#10;END:VCARD&#13;&#10;", "a&#13;&#10;&#13;&#10;b", "a&#13;b&#10;c&#13;"):
+            srcs.append(("crlf:%s" % ty, ('<?xml version="1.0"?><!DOCTYPE SyncML PUBLIC "-//SYNCML//DTD SyncML 1.1//EN" "http://www.syncml.org/docs/syncml_represent_v11_20020213.dtd">'
+                         '<SyncML><SyncHdr><VerDTD>1.1</VerDTD></SyncHdr><SyncBody><Add><CmdID>1</CmdID><Meta><Type xmlns="syncml:metinf">%s</Type></Meta>'
+                         '<Item><Data>%s</Data></Item></Add></SyncBody></SyncML>' % (ty, body)).encode()))
     if getattr(ctx, "replay", None):
         rp = json.load(open(ctx.replay))
         if "source_xml_hex" in rp:
@@ -230,6 +236,11 @@ def run(ctx):
             report("second-iteration-refused", {"status": w2, "first_result_xml": x1.decode("utf-8", "replace")[:3000]})
             continue
         x2 = X2[i]
+        if x2 != x1 and isinstance(x2, bytes) and b"\r" in x1 and c03_lib._eol(x1.decode("latin-1")) == c03_lib._eol(x2.decode("latin-1")):
+            # D40: the generator writes a CR of the character data raw (outside canonical generation), the reader of the next
+            # trip applies XML's line-end normalisation to it: equal modulo that normalisation, not byte for byte
+            known.setdefault("raw-cr-renormalised-on-second-trip", []).append(pay)
+            continue
         if x2 != x1:
             report("second-iteration-differs", {"first_result_xml": x1.decode("utf-8", "replace")[:3000],
                                                 "second_result_xml": x2.decode("utf-8", "replace")[:3000] if isinstance(x2, bytes) else x2})
@@ -275,6 +286,9 @@ def run(ctx):
             xb = XB.get(i)
             if xb == xa:
                 bump("indent way back: second iteration byte-identical")
+                continue
+            if isinstance(xb, bytes) and b"\r" in xa and c03_lib._eol(xa.decode("latin-1")) == c03_lib._eol(xb.decode("latin-1")):
+                known.setdefault("raw-cr-renormalised-on-second-trip", []).append(pay)
                 continue
             same_mod_blank = isinstance(xb, bytes) and not _cmp((xa, xb, lid, False))
             if o[2] == 1 and same_mod_blank:
